@@ -96,7 +96,9 @@ func goAlloc() int {
 	}
 	if t < 0 {
 		if nTasks >= MaxTasks {
-			poison("the library had more goroutines alive at once than the simulator has task slots (" + itoa(MaxTasks) + ")")
+			// this run is wound down and not judged; the process goes on (inputs that make the
+			// library fan out this far are the exception, not a property of the library)
+			stats.TooManyGo = true
 			aborting = true
 			return -2
 		}
